@@ -25,6 +25,9 @@ import (
 //	    O<k>:<n> the slot of key k now belongs to node n (a resharding the proxy has not heard of)
 //	    G<k>:<n> start migrating the slot of key k to node n   V<k> move key k   N<k> finish that migration
 //	    P<r>:<m> node r is a replica of m   F<r> failover: replica r takes over, its master goes down
+//	    A<n> node n restarts on a new address (same node id)   Y<k>:<n>:<m> node n believes the slot of key k belongs to m (a lagging view)
+//	    D<n>:<ms> node n takes ms to answer each command   { … } the commands in between are written without waiting for their replies (pipelined)
+//	    T<ms> (first token) minimum spacing of slot refreshes
 //	    W wait for the slot refresh to settle   C continue on a new client connection
 //	  -> the replies (canonical value text, '!' + reason when the client connection failed), ',' separated
 //	     | r=<redirections caused by each command> | data=<union of all key spaces>
@@ -98,7 +101,17 @@ func clusterRun(f []string) string {
 	if e1 != nil || e2 != nil || nodes < 1 || nodes > 8 || masters < 1 || masters > nodes {
 		return "bad-op"
 	}
-	of, om := redis.VerifSetRefreshTimers(10*time.Second, 8*time.Millisecond)
+	minRate := 8 * time.Millisecond
+	if len(f) > 2 && strings.HasPrefix(f[2], "T") {
+		// T<ms>: the minimum spacing of slot refreshes for this run
+		ms, err := strconv.Atoi(f[2][1:])
+		if err != nil || ms < 1 || ms > 2000 {
+			return "bad-op"
+		}
+		minRate = time.Duration(ms) * time.Millisecond
+		f = append(append([]string{}, f[:2]...), f[3:]...)
+	}
+	of, om := redis.VerifSetRefreshTimers(10*time.Second, minRate)
 	defer redis.VerifSetRefreshTimers(of, om)
 	fc, err := hx.NewFakeCluster(nodes)
 	if err != nil {
@@ -142,6 +155,8 @@ func clusterRun(f []string) string {
 	}
 	defer func() { cl.C.Close() }()
 	var replies, redirs []string
+	pipelining := false
+	var pending []string
 	nodeArg := func(s string) (int, bool) {
 		n, err := strconv.Atoi(s)
 		return n, err == nil && n >= 0 && n < nodes
@@ -236,6 +251,62 @@ func clusterRun(f []string) string {
 				fc.AddReplica(r, n)
 			}
 			continue
+		case 'A':
+			n, ok := nodeArg(body)
+			if !ok {
+				return "bad-op"
+			}
+			if err := fc.Nodes[n].Readdress(); err != nil {
+				return "sockerr"
+			}
+			time.Sleep(15 * time.Millisecond)
+			continue
+		case 'Y':
+			// Y<k>:<n>:<m>  node n believes the slot of key k belongs to node m
+			parts := strings.Split(body, ":")
+			if len(parts) != 3 {
+				return "bad-op"
+			}
+			n, ok1 := nodeArg(parts[1])
+			m, ok2 := nodeArg(parts[2])
+			if !ok1 || !ok2 {
+				return "bad-op"
+			}
+			fc.Believe(n, hx.SlotOf(clusterKey(parts[0])), m)
+			continue
+		case 'D':
+			parts := strings.Split(body, ":")
+			if len(parts) != 2 {
+				return "bad-op"
+			}
+			n, ok := nodeArg(parts[0])
+			ms, err := strconv.Atoi(parts[1])
+			if !ok || err != nil || ms < 0 || ms > 500 {
+				return "bad-op"
+			}
+			fc.Delay(n, time.Duration(ms)*time.Millisecond)
+			continue
+		case '{', '}':
+			if t == "{" {
+				pipelining = true
+			} else {
+				pipelining = false
+				// read the replies of everything that was written since '{'
+				for _, pa := range pending {
+					cl.C.SetReadDeadline(time.Now().Add(5 * time.Second))
+					v, err := cl.Reply()
+					if err != nil {
+						replies = append(replies, "!"+strings.ReplaceAll(err.Error(), " ", "_"))
+					} else {
+						replies = append(replies, clusterRender(v))
+					}
+					redirs = append(redirs, "0")
+					_ = pa
+				}
+				pending = nil
+				time.Sleep(40 * time.Millisecond)
+			}
+			continue
 		case 'V':
 			fc.MoveKey(string(clusterKey(body)))
 			continue
@@ -254,6 +325,13 @@ func clusterRun(f []string) string {
 			continue
 		default:
 			return "bad-op"
+		}
+		if pipelining {
+			if err := cl.Write(args...); err != nil {
+				return "sockerr"
+			}
+			pending = append(pending, t)
+			continue
 		}
 		before, _ := fc.Snapshot()
 		okBefore := refreshes()
@@ -274,13 +352,14 @@ func clusterRun(f []string) string {
 		if after > before || strings.Contains(rendered, "Edial") || strings.Contains(rendered, hx.Hex([]byte("finished with "))) {
 			// a redirection or a failed connect has triggered a slot refresh: let it finish, so that what the
 			// next command sees does not depend on a race between the client and the refresh loop
-			for k := 0; k < 600 && refreshes() == okBefore; k++ {
+			for k := 0; k < 600+int(minRate/(2*time.Millisecond)) && refreshes() == okBefore; k++ {
 				time.Sleep(2 * time.Millisecond)
 			}
 			// several triggers may be queued behind one another (one per redirection): wait until the refresh loop is quiet
 			started := func() uint64 { return counterMap("service." + p.Name() + ".")["upstream.slots_refresh.total"] }
 			last, quiet := started(), 0
-			for k := 0; k < 400 && quiet < 13; k++ {
+			need := 13 + int(minRate/(2*time.Millisecond))
+			for k := 0; k < 1500 && quiet < need; k++ {
 				time.Sleep(2 * time.Millisecond)
 				if cur := started(); cur == last {
 					quiet++
